@@ -283,6 +283,58 @@ def refgraph_cases(n, nsample=None, rng=None):
     return out
 
 
+def marker_scripts():
+    """Exhaustive small family: an update / change condition that names a frame (`in frame F`) -- F being the condition's
+    own frame, an earlier or a later one, with or without enter actions of its own that are still unresolved when the
+    condition is resolved -- used by a transition, a conditional aux or an entry condition.  Well-formed scripts, all of
+    them: they build, or are refused with a parse / resolve error."""
+    out = []
+    acts = {"none": [], "print": ["      print hello"], "put": ["      put 1 into .y"], "inc+bid": ["      inc .y with 1", "      bid stop me"],
+            "do": ['      do vf rec with tag "x" at enter']}
+    for kind in ("updated", "changed"):
+        for use in ("go", "aux", "let"):
+            for where in ("me", "a", "b", "c"):
+                for an, alines in sorted(acts.items()):
+                    for by in ("", " by mk"):
+                        cond = ".x is %s in frame %s%s" % (kind, "" if where == "me" else where, by) if where != "me" or use != "let" \
+                            else ".x is %s in frame me%s" % (kind, by)
+                        L = ["house h", "  init .x with 0", "  init .y with 0", "  framer f be active first a", "    frame a"] + alines
+                        L += ["      go b if elapsed >= 1.0", "    frame b"] + alines
+                        if use == "go":
+                            L += ["      go c if %s" % cond]
+                        elif use == "aux":
+                            L += ["      aux hx if %s" % cond, "      go c if elapsed >= 1.0"]
+                        else:
+                            L += ["      let me if %s" % cond, "      go c if elapsed >= 1.0"]
+                        L += ["    frame c"] + alines + ["      bid stop all"]
+                        if use == "aux":
+                            L += ["  framer hx be aux", "    frame h0", "      done me"]
+                        out.append(("marker-%s-%s" % (use, where), "\n".join(L) + "\n"))
+    return out
+
+
+def clone_cycle_scripts():
+    """moot framers that clone one another in a cycle of length 1, 2, 3 or 4 (insular or named clones, the cycle entered from
+    a scheduled framer or from a moot framer outside it): the build ends -- with a refusal -- in every case"""
+    out = []
+    for n in (1, 2, 3, 4):
+        for how in ("mine", "named", "mixed"):
+            for entry in ("active", "moot"):
+                L = ["house h"]
+                names = ["q%d" % i for i in range(n)]
+                if entry == "moot":
+                    L += ["  framer top be active", "    frame t0", "      aux pre as mine", "  framer pre be moot", "    frame p0",
+                          "      aux q0 as %s" % ("mine" if how != "named" else "kp")]
+                else:
+                    L += ["  framer top be active", "    frame t0", "      aux q0 as %s" % ("mine" if how != "named" else "kt")]
+                for i, nm in enumerate(names):
+                    nxt = names[(i + 1) % n]
+                    as_ = "mine" if how == "mine" or (how == "mixed" and i % 2) else "k%d" % i
+                    L += ["  framer %s be moot" % nm, "    frame f0", "      print hello", "      aux %s as %s" % (nxt, as_)]
+                out.append(("clonecycle-%d" % n, "\n".join(L) + "\n"))
+    return out
+
+
 def worker(ctx, job):
     rng = ctx.rng
     plans = job["plans"]
@@ -355,6 +407,7 @@ def run(ctx):
     ctx.extra["refgraph_cases_3_frames_exhaustive"] = len(graphs)
     if not ctx.quick:
         graphs += refgraph_cases(4, nsample=40000, rng=ctx.rng)
+    graphs += marker_scripts() + clone_cycle_scripts()
     ctx.shard([{"plans": plans, "n": total // n, "budget": 5.0, "refgraphs": graphs[i::n]} for i in range(n)],
               timeout=ctx.pick(400, 3000))
     for k in ("over", "under", "next", "clone"):
